@@ -189,6 +189,33 @@ pub fn run(tier: Tier) -> i32 {
     let mut per = Vec::new();
     let mut samples: Vec<Value> = Vec::new();
     let mut exhaustive_to_depth = true;
+    if let Ok(spec) = std::env::var("C05_REPLAY") {
+        // debugging aid: C05_REPLAY="<system name part>:<a,b,c>" runs the schedule twice and prints partial digests
+        use crate::engine::Sys;
+        use std::hash::Hasher;
+        let (name, acts) = spec.split_once(':').unwrap();
+        let sys = systems.iter().find(|s| s.name.contains(name)).unwrap();
+        for run in 0..2 {
+            let mut w = sys.init();
+            for a in acts.split(',').filter(|x| !x.is_empty()) {
+                let a: u16 = a.parse().unwrap();
+                let o = sys.step(&mut w, a, true);
+                if run == 0 {
+                    println!("step {} -> {:?}", sys.describe(a), o.violations.iter().map(|v| &v.0).collect::<Vec<_>>());
+                }
+            }
+            let mut h1 = crate::common::new_hasher();
+            w.core.pool.pool.verif_digest(&mut h1);
+            let mut h2 = crate::common::new_hasher();
+            w.core.votor.verif_digest(&mut h2);
+            for e in &w.core.q {
+                let d = format!("{e:?}");
+                println!("   queued: {} ... {}", &d[..d.len().min(100)], &d[d.len().saturating_sub(160)..]);
+            }
+            println!("run {run}: pool {:x} votor {:x} q {:?} timers {:?} own_msgs {} total {:x}", h1.finish(), h2.finish(), w.core.q.len(), w.core.timers, w.own_msgs.len(), sys.digest(&w));
+        }
+        std::process::exit(0);
+    }
     let only = std::env::var("C05_ONLY").ok();
     for sys in &systems {
         if only.as_ref().is_some_and(|o| !sys.name.contains(o.as_str())) {
